@@ -293,6 +293,9 @@ func nfDepth(v ssa.Value, d int) string {
 		return nfDepth(x.Tuple, d+1) + fmt.Sprintf("#%d", x.Index)
 	case *ssa.Call:
 		cc := x.Common()
+		if b, ok := cc.Value.(*ssa.Builtin); ok && (b.Name() == "len" || b.Name() == "cap") && len(cc.Args) == 1 {
+			return b.Name() + "(" + nfDepth(cc.Args[0], d+1) + ")"
+		}
 		if cc.IsInvoke() && len(cc.Args) == 0 {
 			return nfDepth(cc.Value, d+1) + "." + cc.Method.Name() + "()"
 		}
